@@ -1,6 +1,7 @@
 """C15 -- incomplete mode (DESIGN 5.15)."""
 import json
 from framework import *
+import lexcheck
 import svx_grammar, snippets, svtree
 
 PARTIAL = ("proved over the regenerated grammar, for every behaviour of the primitives that consumes at least one byte and stays "
@@ -41,12 +42,21 @@ def check(ctx):
         ctx.obl("regenerated:grammar with non-nullability certificate", "regenerated", False, "translator failed: %r" % (e,))
     prove(ctx, "C15")
     build_impl(ctx)
+    lexcheck.obligation(ctx, "C15", {"pos"})
     r = ctx.rng
     q = ctx.quick()
     deep = any(not o.ok for o in ctx.obls)
     pool = snippets.sv_sources()
     base = r.sample(pool, min(len(pool), 60 if (q and not deep) else 500))
     srcs = [("sv", h) for h in HEADS] + [("lib", h) for h in HEADS] + base + [("sv", t) for t in snippets.KW_REGIONS]
+    # long sources (more descriptions than the memo holds) whose last description stands in a keyword region that is still open
+    # at the end of the text: junk behind them must not change what is returned for the descriptions in front
+    for nmod in (6, 14, 40):
+        body = "".join("module m%d; logic [3:0] a%d; always_comb a%d = %d; endmodule\n" % (i, i, i, i % 7) for i in range(nmod))
+        for spec in ("1364-1995", "1364-2001", "1800-2005"):
+            srcs.append(("sv", body + "`begin_keywords \"%s\"\nmodule z; reg r; endmodule\n" % spec))
+        srcs.append(("sv", "`begin_keywords \"1364-2001\"\n" + "".join("module n%d; reg logic; endmodule\n" % i for i in range(nmod))))
+    srcs.append(("lib", "".join("library l%d \"a%d/*.v\" -incdir \"i%d\";\n" % (i, i, i) for i in range(200)) + "`begin_keywords \"1364-1995\"\nconfig c; design d; endconfig\n"))
     for k, s in list(base):
         for _ in range(1 if q else 3):
             srcs.append((k, mutate(r, s)))
@@ -148,6 +158,22 @@ def check(ctx):
     if bad:
         rp = write_replay(ctx, "src-" + sha(bad[1])[:8], {"property": "C15", "grammar": bad[0], "source": bad[1], "why": bad[2]})
         ctx.viol.append(Violation("incomplete mode: " + bad[2], rp))
+    d11_tail_known(ctx)
+
+
+def d11_tail_known(ctx):
+    findings, _ = load_known()
+    if not any(f.get("property") == "C15" and f.get("id") == "D11-keywords-in-tail" for f in findings):
+        return
+    w = json.load(open(os.path.join(VERIF, "corpus", "C15-D11-tail.json")))
+    c = Case("kf").add("want", "tree").add("opt", "incomplete", 1)
+    c.add("run", "parse_sv_str", hx(w["source"]), hx("t.sv")).add("run", "parse_sv_str", hx(w["source"] + w["tail"]), hx("t.sv"))
+    lines = run_harness("api", [c], "c15kf").get("kf", [])
+    tl = [l for l in lines if l.startswith("tree ")]
+    if len(tl) == 2 and "TimeunitsDeclaration" in tl[0] and "TimeunitsDeclaration" not in tl[1]:
+        ctx.known_printed.append("D11-keywords-in-tail")
+    else:
+        ctx.notes.append("known finding D11-keywords-in-tail no longer reproduces: %s" % [l[:80] for l in lines[:4]])
 
 
 def replay(ctx, path):
